@@ -143,6 +143,18 @@ func faults(base *dt.File) []fault {
 		appendRoot(t, mark(dt.N("GET", "/sim/{two}").Add(dt.N("200", "any"))))
 		f := add("similar-paths", t, "the ambiguous paths are not allowed")
 		f.AltIDs = []string{"SIM1"}
+		// paths with two parameters: every way in which the names of the second path can differ from the first one's
+		// (first only, last only, both, swapped) in three shapes - the paths are ambiguous whenever any name differs
+		for si, shape := range []string{"/sim2/{%s}/toys/{%s}", "/sim2/{%s}/{%s}", "/sim2/{%s}/toys/{%s}/x"} {
+			for vi, names := range [][2]string{{"q", "b"}, {"a", "q"}, {"q", "r"}, {"b", "a"}} {
+				tt := base.Clone()
+				id := fmt.Sprintf("SIM2-%d-%d", si, vi)
+				appendRoot(tt, dt.N("GET", fmt.Sprintf(shape, "a", "b")).Add(dt.N("200", "any")).WithID(id))
+				appendRoot(tt, mark(dt.N("GET", fmt.Sprintf(shape, names[0], names[1])).Add(dt.N("200", "any"))))
+				ff := add("similar-paths", tt, "the ambiguous paths are not allowed")
+				ff.AltIDs = []string{id}
+			}
+		}
 		t2 := base.Clone()
 		appendRoot(t2, mark(dt.N("GET", "/dup/{p}/x/{p}").Add(dt.N("200", "any"))))
 		add("dup-path-parameter", t2, "the parameter of the path is duplicated")
